@@ -65,7 +65,8 @@ func (d *deduplicationStrategy) eval(
 	var rewriteKeys [][]byte
 	var rewriteValues [][]byte
 	// first, check if the whole entity is equal to the previous entity
-	if server.IsEntityEqual(d.prevEntityBytes, entityBytes, d.prev, e) {
+	isDuplicate := server.IsEntityEqual(d.prevEntityBytes, entityBytes, d.prev, e)
+	if isDuplicate {
 		// if to be deleted... delete 5 key types for each change version:
 		// 1.delete json entry (key already in keysToDelete)
 		del = append(del, jsonKey)
@@ -135,6 +136,13 @@ func (d *deduplicationStrategy) eval(
 		if len(rewriteKeys) > 0 {
 			res.RewriteKeys = rewriteKeys
 			res.RewriteValues = rewriteValues
+		}
+		if !isDuplicate {
+			// only reference keys of this version are removed, the version itself stays
+			// and is the comparison base for the next version
+			d.prevJsonKey = jsonKey
+			d.prevEntityBytes = entityBytes
+			d.prev = e
 		}
 		return res, nil
 	}
